@@ -301,6 +301,12 @@ SPECIAL = {
                      "  subroutine suse(v)\n    type(sbt) :: v, w\n    call v%sbg(1)\n    w = v + v\n  end subroutine suse\nend module sbm\n",
     "abstract_deferred": "module sam\n  implicit none\n  type, abstract :: sat\n  contains\n    procedure(sai), deferred :: sad\n  end type sat\n  abstract interface\n    subroutine sai(self)\n      import :: sat\n"
                          "      class(sat) :: self\n    end subroutine sai\n  end interface\ncontains\n  subroutine suse2(v)\n    class(sat) :: v\n    call v%sad()\n  end subroutine suse2\nend module sam\n",
+    # an extension that does not implement a deferred binding: the one shape for which code actions have something to
+    # offer (asked at every token, i.e. many times for the same type)
+    "deferred_not_implemented": "module sdm\n  implicit none\n  type, abstract :: sdt\n  contains\n    procedure(sdi), deferred :: sdd\n  end type sdt\n  abstract interface\n"
+                                "    subroutine sdi(self)\n      import :: sdt\n      class(sdt) :: self\n    end subroutine sdi\n  end interface\n"
+                                "  type, extends(sdt) :: sdc\n    integer :: sdv\n  end type sdc\n  type, extends(sdt) :: sdc2\n    integer :: sdw\n  contains\n    procedure :: sdother\n  end type sdc2\n"
+                                "contains\n  subroutine sdother(self)\n    class(sdc2) :: self\n  end subroutine sdother\nend module sdm\n",
     # characters whose lower- or upper-case form has another length (U+0130 -> 2 code points, U+00DF -> "SS") in literals
     # and comments to the left of names: columns computed on a case-folded copy of the line are off
     "case_folding_length": "module scm\n  implicit none\n  character(len=9) :: sc1 = \"\u0130\u0130\u0130\u0130\u0130\u0130\", sc2\n"
